@@ -154,6 +154,85 @@ theorem canonHost_idem (puny : Str → Str) (hp : PunyLaws puny) (h : Str) :
     obtain ⟨p0, hp0, rfl⟩ := hp'
     exact dot_not_mem_canonLabel puny hp p0 (not_mem_of_mem_splitOn '.' h p0 hp0)
 
+/-! ### the host rule keeps the name (same host "up to letter case and IDNA spelling")
+
+Two hosts are the same name up to letter case and IDNA spelling when, label by label, their
+ASCII-compatible (ACE) spellings agree: `ace` is ToASCII of one label followed by ASCII
+lower-casing (CPython: `label.encode("idna")`, an all-ASCII label being its own ACE form) —
+the reference encoder, an abstract parameter like the decoder `puny`.  The host rule keeps
+the name iff the decoder does (`same_name`): decoding an `xn--` label gives a label with the
+ACE spelling of the label it was given — which is what the round-trip check of the `idna`
+codec's ToUnicode enforces (a label that does not re-encode to itself is left untouched), and
+what the bare `punycode` codec does not (`xn--caf-pia` → `cafÉ`, whose ACE form is
+`xn--caf-dma`; `xn--foo-` → `foo`; `xn--` → the empty label …).  Both laws are checked on
+the real `decode_punycode_hostname` on every run, over an enumerated class of ACE labels and
+on every label of every generated host (`harness/punylaws.py`). -/
+
+/-- the host "up to letter case and IDNA spelling": the ACE key of every label -/
+def hostKey (ace : Str → Str) (h : Str) : Str := join ['.'] ((splitOn h '.').map ace)
+
+/-- the label `decode_punycode_hostname` hands to the decoder: header lower-cased -/
+def aceForm (part : Str) : Str := lower (part.take 4) ++ part.drop 4
+
+/-- What the host clause of C01 needs of the decoder `puny` (one `xn--` label of
+`decode_punycode_hostname`) relative to the reference encoder `ace`: the key ignores ASCII
+letter case (a law of the reference), and **decoding never changes the name**. -/
+structure IdnaLaws (ace puny : Str → Str) : Prop where
+  ace_lower : ∀ l, ace (lower l) = ace l
+  same_name : ∀ x, ace (puny x) = ace x
+
+/-- the identity decoder keeps every name -/
+theorem idnaLaws_id : IdnaLaws lower id where
+  ace_lower := fun l => lower_idem l
+  same_name := fun _ => rfl
+
+/-- `same_name` on the `xn--` labels of one host only: the per-case obligation that the
+oracle evaluates on the real decoder -/
+def SameNameOn (ace puny : Str → Str) (h : Str) : Prop :=
+  ∀ part ∈ splitOn h '.', lower (part.take 4) = "xn--".toList →
+    ace (puny (aceForm part)) = ace (aceForm part)
+
+instance (ace puny : Str → Str) (h : Str) : Decidable (SameNameOn ace puny h) := by
+  unfold SameNameOn; exact inferInstance
+
+theorem sameNameOn_of_laws {ace puny : Str → Str} (hi : IdnaLaws ace puny) (h : Str) :
+    SameNameOn ace puny h := fun part _ _ => hi.same_name (aceForm part)
+
+theorem lower_aceForm (part : Str) : lower (aceForm part) = lower part := by
+  unfold aceForm
+  rw [lower_append, lower_idem, ← lower_append, List.take_append_drop]
+
+/-- one label: the canonical label has the ACE key of the label -/
+theorem ace_canonLabel (ace puny : Str → Str) (hl : ∀ l, ace (lower l) = ace l) (part : Str)
+    (hs : lower (part.take 4) = "xn--".toList →
+      ace (puny (aceForm part)) = ace (aceForm part)) :
+    ace (canonLabel puny part) = ace part := by
+  unfold canonLabel
+  by_cases h : lower (part.take 4) = "xn--".toList
+  · rw [if_pos h, hl]
+    have e := hs h
+    unfold aceForm at e
+    rw [e, ← hl, ← aceForm, lower_aceForm, hl]
+  · rw [if_neg h, hl]
+
+/-- **the host rule keeps the name**: the canonical host has the ACE key of the host, for
+every decoder that never produces a dot and keeps the name of the labels of this host -/
+theorem hostKey_canonHost (ace puny : Str → Str) (hp : PunyLaws puny)
+    (hl : ∀ l, ace (lower l) = ace l) (h : Str) (hs : SameNameOn ace puny h) :
+    hostKey ace (canonHost puny h) = hostKey ace h := by
+  unfold hostKey
+  rw [canonHost_eq puny h]
+  rw [splitOn_join '.' _ (by simpa using splitOn_ne_nil h '.')]
+  · rw [List.map_map]
+    congr 1
+    apply List.map_congr_left
+    intro p hp'
+    exact ace_canonLabel ace puny hl p (hs p hp')
+  · intro p hp'
+    simp only [List.mem_map] at hp'
+    obtain ⟨p0, hp0, rfl⟩ := hp'
+    exact dot_not_mem_canonLabel puny hp p0 (not_mem_of_mem_splitOn '.' h p0 hp0)
+
 /-! ### text components keep their decoded bytes -/
 
 theorem pctStr_safelyQuote (s : Str) : pctStr (safelyQuote s) = pctStr s := by
